@@ -83,3 +83,13 @@ check("C05",
       "deviation F4 enabled.",
       TB + "Attribute values/keys of merged features are compared as sets. Known finding F4_ReplaceKeepsStaleLinks.",
       "TLA+ state-machine spec (GffDB) + TLC alg-vs-decl invariants per strategy + deviation actions for known findings + model trajectories compared with real databases")
+
+check("C10",
+      "MC_DB10 is the database as a TLA+ state machine: one action per public call (update x 5 batches x 5 strategies x backup, empty update, update whose source "
+      "fails at item 0/1, delete of each stored id, add_relation with/without child rewrite, reopen) from three initial files, variables db / live counters / .bak "
+      "content / handed-out keys. TLC explores all histories to depth 3 (quick) / 4 (thorough, 186k states, 1.27M transitions) checking InvKeys, InvCountersCover and the "
+      "action properties NoRecycle, Level2Sound, DeleteExact, EmptyIdentity, UpdateMonotone, BackupIsPreState, ReadsDontTouch; the F6 deviation must break Level2Sound. "
+      "Behaviours (all of length 2, seeded -simulate of length 7) are executed on real file databases; after EVERY call the file and its .bak are projected through "
+      "fresh connections and compared with the snapshots; mismatches get a second judgement with the known deviation.",
+      TB + "After a failing source only the backup is asserted; a raising add_relation ends the history. Known finding F4_ReplaceKeepsStaleLinks.",
+      "TLA+ state machine (MC_DB10 on GffDB) + TLC invariants/action properties over all short histories + spec-generated behaviours replayed step by step on real file databases")
